@@ -35,6 +35,7 @@ func (x *Exec) intrinsic(fn *ssa.Function, args []Val) (Val, bool) {
 		return v, true
 	case "verifNondetJSON":
 		r := x.newLazy(int(args[0].(Int).sval()))
+		r.L.root = true
 		x.roots = append(x.roots, r.L)
 		x.tape = append(x.tape, TapeEntry{"json", r})
 		return r, true
